@@ -1,8 +1,9 @@
 PROPS = ["CTV.Props.C04", "CTV.Props.C04SctList", "CTV.Props.C04Wrappers", "CTV.Props.C04Tie", "CTV.Model.CtWrappersSpec"]
-HARNESS = [dict(pkg=".", test="TestVerifC04", timeout=900), dict(pkg="./trillian/util/", test="TestVerifC04Util", timeout=900)]
+HARNESS = [dict(pkg=".", test="TestVerifC04", timeout=900), dict(pkg="./trillian/util/", test="TestVerifC04Util", timeout=900),
+           dict(pkg="./x509util/", test="TestVerifC04X509util", timeout=900)]
 RULE = ("tls.Marshal / tls.Unmarshal of the exported ct types, the serialization.go functions and the JSON message conversions at the length "
         "boundaries {0,1,255,256,65535,65536} (2^24-1 once in the thorough tier), both entry types, all 256 hash / signature codes, empty and "
-        "long chains, SCT lists around 65335/65535, mutated byte strings, BuildLogLeaf / ExtraDataForChain for chains of length 0..N, real JSON messages in both directions; every line is answered by the Lean RFC transcription; "
+        "long chains, SCT lists around 65335/65535, mutated byte strings, BuildLogLeaf / ExtraDataForChain for chains of length 0..N, x509util.ParseSCTsFromCertificate on certificates with hand-encoded SCT-list extension bodies, real JSON messages in both directions; every line is answered by the Lean RFC transcription; "
         "non-trivial = distinct lines with a successful encoding / decoding")
 TRUSTED = ["encoding/json and encoding/base64 are run for real (json.Marshal / json.Unmarshal of the eight RFC 6962 section 4 messages, the DigitallySigned / "
            "SHA256Hash / SignedTreeHead JSON methods) and compared with a Lean JSON printer / parser and base64; they are not modelled beyond that",
